@@ -1427,6 +1427,41 @@ variant('t-collector-early-return-on-complete', ['C08', 'C06'], 'rsocket/awaitab
 variant('b-passed-argument-ignored', ['C01'], F,
         "                self.fragment_size_bytes,\n                requires_length_header\n            )",
         "                self.fragment_size_bytes\n            )", ('C01.g', 'get_next_fragment'))
+variant('b-cancel-helper-only-cancellederror', ['C11'], 'rsocket/helpers.py',
+        "        except asyncio.CancelledError:\n            logger().debug('Asyncio task cancellation error: %s', task)\n        except Exception:\n            logger().warning('Runtime error canceling task: %s', task, exc_info=True)",
+        "        except asyncio.CancelledError:\n            logger().debug('Asyncio task cancellation error: %s', task)",
+        ('C11.e', 'cancel_if_task_exists'))
+variant('t-cancel-helper-base-exception', ['C11'], 'rsocket/helpers.py',
+        "        except asyncio.CancelledError:\n            logger().debug('Asyncio task cancellation error: %s', task)\n        except Exception:\n            logger().warning('Runtime error canceling task: %s', task, exc_info=True)",
+        "        except BaseException:\n            logger().debug('Asyncio task ended: %s', task, exc_info=True)",
+        kind='twin')
+COL = 'rsocket/awaitable/collector_subscriber.py'
+AW = 'rsocket/awaitable/awaitable_rsocket.py'
+variant('b-collector-drops-completing-element', ['C01'], COL,
+        "        self.values.append(value)\n\n        self._received_count += 1",
+        "        if not is_complete:\n            self.values.append(value)\n\n        self._received_count += 1",
+        ('C01.h', 'every element collected once'))
+variant('b-collector-error-not-raised', ['C01', 'C07'], COL,
+        "        if self.error:\n            raise self.error\n", "", ('C01.h', 'CollectorSubscriber.run'))
+variant('b-collector-error-without-release', ['C07', 'C01'], COL,
+        "        self.error = exception\n        self.is_done.set()", "        self.error = exception",
+        ('C01.h', 'CollectorSubscriber.on_error'))
+variant('b-collector-complete-without-release', ['C07', 'C01'], COL,
+        "    def on_complete(self):\n        self.is_done.set()", "    def on_complete(self):\n        pass",
+        ('C01.h', 'CollectorSubscriber.on_complete'))
+variant('b-awaitable-close-not-awaited', ['C11'], AW,
+        "    async def close(self):\n        await self._rsocket.close()",
+        "    def close(self):\n        self._rsocket.close()", ('C11.l', 'AwaitableRSocket.close'))
+variant('b-awaitable-fnf-wrong-method', ['C01'], AW,
+        "        return self._rsocket.fire_and_forget(payload)", "        return self._rsocket.metadata_push(payload)",
+        ('C01.h', 'AwaitableRSocket.fire_and_forget'))
+variant('t-awaitable-close-returned', ['C11', 'C01'], AW,
+        "    async def close(self):\n        await self._rsocket.close()",
+        "    def close(self):\n        return self._rsocket.close()", kind='twin')
+variant('t-collector-run-temp', ['C01', 'C07'], COL,
+        "        if self.error:\n            raise self.error\n\n        return self.values",
+        "        error = self.error\n        if error is not None:\n            raise error\n\n        return self.values",
+        kind='twin')
 variant('b-send-error-noop', ['C12'], RB,
         "        self.send_frame(exception_to_error_frame(stream_id, exception))",
         "        logger().error('error on stream %s: %s', stream_id, exception)", ('C12.b', 'RSocketBase.send_error'))
